@@ -180,7 +180,7 @@ Definition ps_init (d : D) (p : phrase_sel) (cur : nat) : outcome phrase_sel :=
 Definition ps_init_single_word (p : phrase_sel) (cur : nat) : outcome phrase_sel :=
   let e := Nat.min cur (clen (ps_com p)) in
   if Nat.eqb e 0 then Panic 205
-  else Ok (mkPS (e - 1) e (ps_fwd p) cur (ps_fuzzy p) (ps_com p)).
+  else Ok (mkPS (e - 1) e (ps_fwd p) (e - 1) (ps_fuzzy p) (ps_com p)).
 
 Definition ps_range_has (d : D) (p : phrase_sel) (b e : nat) : outcome bool :=
   if Nat.ltb e b then Panic 206
@@ -740,9 +740,9 @@ Definition entering_syllable_next (s : shared') (ev : keyevent) : outcome (share
     end.
 
 (* ---- Selecting ---- *)
-Definition selecting_select (s : shared') (page_no : nat) (act_insert : bool) (sel : selector) (n : nat)
+(* Selecting::select_offset: choose the candidate at `offset` in the whole list *)
+Definition selecting_select_offset (s : shared') (page_no : nat) (act_insert : bool) (sel : selector) (offset : nat)
   : outcome (shared' * transition * nat * selector) :=
-  let offset := page_no * o_per_page (opts s) + n in
   match sel with
   | SelPhrase p =>
     do cands <- candidates s sel;
@@ -755,6 +755,8 @@ Definition selecting_select (s : shared') (page_no : nat) (act_insert : bool) (s
     | None => Ok (s, Spin BBell, page_no, sel)
     end
   | SelSymbol y =>
+    if Nat.leb (length (ss_menu y)) offset then Ok (s, Spin BBell, page_no, sel)
+    else
     do r <- ss_select y offset;
     let '(y', res) := r in
     match res with
@@ -764,6 +766,9 @@ Definition selecting_select (s : shared') (page_no : nat) (act_insert : bool) (s
     | None => Ok (s, Spin BAbsorb, 0, SelSymbol y')
     end
   | SelSpecial sym0 =>
+    do m <- special_menu sym0;
+    if Nat.leb (length m) offset then Ok (s, Spin BBell, page_no, sel)
+    else
     do res <- special_select sym0 offset;
     match res with
     | Some sym =>
@@ -772,6 +777,11 @@ Definition selecting_select (s : shared') (page_no : nat) (act_insert : bool) (s
     | None => Ok (s, Spin BAbsorb, 0, sel)
     end
   end.
+
+(* Selecting::select: the n-th candidate of the current page (selection keys) *)
+Definition selecting_select (s : shared') (page_no : nat) (act_insert : bool) (sel : selector) (n : nat)
+  : outcome (shared' * transition * nat * selector) :=
+  selecting_select_offset s page_no act_insert sel (page_no * o_per_page (opts s) + n).
 
 Definition cancel_selecting (s : shared') : shared' := set_com s (ce_pop_cursor (com s)).
 
@@ -809,12 +819,12 @@ Definition selecting_next (s : shared') (ev : keyevent) (page_no : nat) (act_ins
     if ce_is_empty (com s) then stay s BIgnore page_no sel
     else
       let s1 := set_com s (ce_move_cursor (com s) (sel_begin s sel - 1)) in
-      do sel' <- reselect_at_cursor s1; stay s1 BAbsorb page_no sel'
+      do sel' <- reselect_at_cursor s1; stay s1 BAbsorb 0 sel'
   else if N.eqb k kc_K then
     if ce_is_empty (com s) then stay s BIgnore page_no sel
     else
       let s1 := set_com s (ce_clamp_cursor (ce_move_cursor (com s) (sel_begin s sel + 1))) in
-      do sel' <- reselect_at_cursor s1; stay s1 BAbsorb page_no sel'
+      do sel' <- reselect_at_cursor s1; stay s1 BAbsorb 0 sel'
   else if N.eqb k kc_Left || N.eqb k kc_PageUp then
     if Nat.ltb 0 page_no then stay s BAbsorb (page_no - 1) sel
     else do tp <- total_page s sel; stay s BAbsorb (tp - 1) sel
@@ -881,7 +891,7 @@ Definition process_keyevent (e : editor') (ev : keyevent) : outcome (editor' * b
 Definition ed_select (e : editor') (n : nat) : outcome (editor' * bool) :=
   match st e with
   | Selecting pg act sel =>
-    do r <- selecting_select (sh e) pg act sel n;
+    do r <- selecting_select_offset (sh e) pg act sel n;
     let '(s2, t, pg', sel') := r in
     let '(s3, st3) := apply_transition s2 (Selecting pg' act sel') t in
     do s4 <- (if behavior_eqb (last s3) BAbsorb then try_auto_commit s3 else Ok s3);
@@ -932,7 +942,7 @@ Definition with_phrase_sel (e : editor') (f : nat -> bool -> phrase_sel -> outco
   | Selecting pg act (SelPhrase p) =>
     do r <- f pg act p;
     match r with
-    | Some p' => Ok (mkEditor (sh e) (Selecting pg act (SelPhrase p')), true)
+    | Some p' => Ok (mkEditor (sh e) (Selecting 0 act (SelPhrase p')), true)
     | None => Ok (e, false)
     end
   | _ => Ok (e, false)
